@@ -389,6 +389,37 @@ func c16Run(e *core.Env) {
 		}
 	})
 	e.SetBound("position_chain_steps", chainN)
+	if e.Take() {
+		// a file of 5000 bookings: every booking exactly once in the beancount output (real
+		// binary, 1 CPU and all CPUs), and the race detector on the load
+		var sc scenario
+		for _, s := range raceOnlyScenarios() {
+			if s.Name == "big-file-5000-transcode" {
+				sc = s
+			}
+		}
+		drv.Files(sc.Files)
+		for _, procs := range []string{"1", "", "4", ""} {
+			o := drv.RunBinaryProcs(procs, sc.Args...)
+			e.Count("evaluations")
+			e.Count("large_file_runs")
+			if o.Exit != 0 || o.Panic != "" {
+				e.Violation("C16:unexpected-failure:large-file", clip(o.Stderr, 1000), c16Case{}, nil)
+				break
+			}
+			bad := ""
+			for i := 0; i < 5000 && bad == ""; i++ {
+				if n := strings.Count(o.Stdout, fmt.Sprintf("\"t%05d\"", i)); n != 1 {
+					bad = fmt.Sprintf("booking t%05d appears %d times in the output (GOMAXPROCS=%q)", i, n, procs)
+				}
+			}
+			if bad != "" {
+				e.Violation("C16:transaction-set-differs:large-file", bad, c16Case{}, nil)
+				break
+			}
+		}
+		raceTier(e, core.Pick(e, 2, 6), "C16", "big-file")
+	}
 }
 
 func c16Replay(e *core.Env, data json.RawMessage) (bool, string) {
